@@ -1,7 +1,7 @@
 ---------------------------- MODULE PolyTrace ----------------------------
 (* Validates recorded results of mpyc.gfpx operations (both representations for P = 2) -- C23 -- and  *)
 (* of the irreducibility test / search and GF(modulus) acceptance -- C24 -- against Poly.tla.         *)
-EXTENDS Poly, TLC, Json, IOUtils
+EXTENDS Poly, TLC, Json, IOUtils, FiniteSets
 Evs == JsonDeserialize(IOEnv.TRACE_FILE)
 VARIABLE k
 TInit == k \in 1..Len(Evs)
@@ -36,6 +36,31 @@ PowModOK == E.fn = "powmod" =>
            IF E.n >= 0 THEN E.exc = "" /\ E.r1 = PPowMod(E.a, E.n, E.b)
            ELSE IF E.r2 = 1 THEN E.exc = "" /\ PMod(PMul(E.r1, PPowMod(E.a, 0 - E.n, E.b)), E.b) = PMod(1, E.b)
            ELSE E.exc = "ZeroDivisionError"
+\* ---- C38: further operators and methods of secure polynomials (mpyc.secpols), opened results ----
+Eval(a, x) == LET f(i) == Coef(a, i) * PowP(x, i) IN SumTo(f, DMAX) % P
+RevBy(a, d) == LET f(i) == (IF d - i >= 0 THEN Coef(a, d - i) ELSE 0) * (P ^ i) IN SumTo(f, d)
+RECURSIVE PPow(_, _)
+PPow(a, n) == IF n = 0 THEN 1 ELSE PMul(PPow(a, n - 1), a)
+ScalarMulP(c, a) == LET f(i) == ((c * Coef(a, i)) % P) * (P ^ i) IN SumTo(f, DMAX)
+SecPolOK == CASE E.fn = "le" -> (E.r1 = 1) <=> (E.a <= E.b)
+              [] E.fn = "gt" -> (E.r1 = 1) <=> (E.a > E.b)
+              [] E.fn = "ge" -> (E.r1 = 1) <=> (E.a >= E.b)
+              [] E.fn = "eq" -> (E.r1 = 1) <=> (E.a = E.b)
+              [] E.fn = "ne" -> (E.r1 = 1) <=> (E.a # E.b)
+              [] E.fn = "lshift" -> E.r1 = E.a * (P ^ E.n)
+              [] E.fn = "rshift" -> E.r1 = E.a \div (P ^ E.n)
+              [] E.fn = "eval" -> E.r1 = Eval(E.a, E.n)
+              [] E.fn = "degree" -> E.r1 = Deg(E.a) % P
+              [] E.fn = "monic" -> E.r1 = (IF E.a = 0 THEN 0 ELSE ScalarMulP(InvP(Lead(E.a)), E.a))
+              [] E.fn = "reverse" -> E.r1 = (IF E.n = -2 THEN RevBy(E.a, Deg(E.a)) ELSE RevBy(E.a % (P ^ (E.n + 1)), E.n))
+              [] E.fn = "truncate" -> E.r1 = E.a % (P ^ E.n)
+              [] E.fn = "ifelse" -> E.r1 = (IF E.n = 1 THEN E.a ELSE E.b)
+              [] E.fn = "getitem" -> E.r1 = Coef(E.a, E.n)
+              [] E.fn = "pow" -> E.r1 = PPow(E.a, E.n)
+              [] E.fn = "copy" -> E.r1 = E.a
+              [] OTHER -> TRUE
+\* only the length bound is public: the length of a result's share is a function of the operands' lengths (and public arguments)
+LenPublicOK == E.fn = "lens" => Cardinality({E.lens[i] : i \in DOMAIN E.lens}) = 1
 \* ---- C24 ----
 IrrOK == E.fn = "irr" => ((E.r1 = 1) <=> Irreducible(E.a))
 NextIrrOK == E.fn = "nextirr" => IsNextMonicIrr(E.a, E.r1)
